@@ -122,7 +122,7 @@ structure ReadOut where
   cnt : Nat            -- samples read from it
   deriving Repr
 
-def read (d : Desc) (rate : Rat) (offset n : Arg) : Except RErr ReadOut :=
+def readOp (d : Desc) (rate : Rat) (offset n : Arg) : Except RErr ReadOut :=
   match readCheck d.len offset n with
   | .error e => .error e
   | .ok (o, k) => .ok { n := k, start := timeAt rate o, pos := (window d o k).1, cnt := (window d o k).2 }
